@@ -301,9 +301,9 @@ theorem skip_field (f : FieldVal × Nat) (hf : FieldOK f) (d : Dec) (pre post : 
   unfold wireOf at h ⊢
   rw [wire_split f.1 f.2 hf.valid, List.append_assoc] at h
   have h1 := Dec.tag_at h hf.tag.1 hf.tag.2 (wt_lt f.1)
-  have hAt := h.advance
-  have hsk := Dec.skip_at hf.tag.1 hf.tag.2 (payload_wf f.1 f.2 hf.valid hf.small) hAt
-  refine ⟨_, { d with off := d.off + (encTag f.2 f.1.wt).length + (f.1.payload f.2).length }, h1, ?_, ?_⟩
+  have hAt := h.afterTag
+  have hsk := Dec.skip_at hf.tag.1 hf.tag.2 (payload_wf f.1 f.2 hf.valid hf.small) hAt (by intro _; simp [h.off])
+  refine ⟨_, { d.afterTag (encTag f.2 f.1.wt).length with off := (d.afterTag (encTag f.2 f.1.wt).length).off + (f.1.payload f.2).length }, h1, ?_, ?_⟩
   · simp only [Dec.step, withAlloc, hsk]; rw [wire_split f.1 f.2 hf.valid]
   · rw [wire_split f.1 f.2 hf.valid, ← List.append_assoc]
     exact hAt.advance
